@@ -372,6 +372,70 @@ def verify_function(world, con, variant=None, budget=None, max_paths=4000):
     return res
 
 
+def verify_lemma(world, modname, node, kw, budget=None):
+    """A lemma is a closed specification formula: a module-level function of a contract file decorated
+    `@lemma(props=[...], types={'p': 'ProcessStatus', 'n': 'int', ...})`.  Its parameters are universally quantified
+    symbolic values of the declared types (objects and collections: arbitrary allocated values of an arbitrary heap),
+    `assume(e)` statements restrict them, the returned claim is proved for all of them (obligation `lemma:<name>`).
+    The assumptions must be satisfiable together (obligation `vac:lemma-assumptions-satisfiable/<name>`)."""
+    ct, ts, reg = world.ct, world.ts, world.reg
+    fi = FuncInfo(node, modname)
+    target = f'{modname}:{node.name}'
+    res = FunctionResult(target, None)
+    res.source = ct.source_info(fi)
+    t0 = time.time()
+    runner = PathRunner(budget)
+    try:
+        runner.start_path(runner.worklist.pop())
+        runner.paths += 1
+        eng = Engine(ct, ts, runner, reg)
+        eng.cur_fn = node.name
+        eng.in_lemma = True
+        types = kw.get('types', {})
+        vars_ = {}
+        for a in node.args.args:
+            if a.arg not in types:
+                raise Unsupported(f'lemma {node.name}: parameter {a.arg!r} has no declared type (types=)')
+            vars_[a.arg] = eng.make_symbolic(a.arg, ts.ann_to_type(ast.parse(types[a.arg], mode='eval').body, 'ttypes'))
+        eng.old_heap = eng.heap.snapshot()
+        eng.entry_vars = dict(vars_)
+        fr = Frame(None, modname, dict(vars_), None, None)
+        eng.mode = SPEC
+        claim = None
+        try:
+            eng.exec_block(node.body, fr)
+        except ReturnEx as r:
+            claim = eng.as_bool(eng.truthy(r.value))
+        if claim is None:
+            raise Unsupported(f'lemma {node.name} does not return a claim')
+        eng.run.assume(eng.str_axioms(), silent=True)
+        r = runner.check_sat()
+        res.vacuity = str(r)
+        vname = f'vac:lemma-assumptions-satisfiable/{node.name}'
+        runner.oblige(vname, 'vac', r != z3.unsat, node.lineno, detail=f'z3 says {r} for the assumptions of the lemma')
+        if r == z3.unsat:
+            runner.obligations[(vname, runner.prefix())].verdict = 'refuted'
+        runner.oblige(f'lemma:{node.name}', 'lemma', claim, node.lineno, model_probe=_probe(eng, vars_))
+        res.normal_paths = 1
+        res.inlined |= eng.inlined
+        res.by_contract |= eng.by_contract
+        res.externals |= eng.externals_used
+    except Infeasible:
+        res.error = f'lemma {node.name}: assumptions are contradictory'
+    except Unsupported as e:
+        res.error = f'unsupported: {e}'
+    except z3.Z3Exception as e:
+        res.error = f'z3 error: {e}\n{traceback.format_exc()}'
+    except Exception as e:   # engine bug: reported as engine error, never as a verdict
+        res.error = f'engine crash: {type(e).__name__}: {e}\n{traceback.format_exc()}'
+    res.obligations = list(runner.obligations.values())
+    res.paths = runner.paths
+    res.seconds = time.time() - t0
+    res.solver_seconds = runner.solver_seconds
+    res.queries = runner.queries
+    return res
+
+
 def _bindings(eng, fi, con, variant):
     ptypes = eng.ts.param_types(fi)
     for k, v in con.types.items():
